@@ -55,7 +55,11 @@ theorem userInv_invoke {s : Store} {thr : List Thread} (h : UserInv s thr) {u : 
     have hxk : ∀ k', PendIns x k' → k' = k := by
       rintro k' ⟨_, j, hj⟩; rw [hxo] at hj; cases hj; rfl
     have hxp : PendIns x k := ⟨Or.inl hx, i, hxo⟩
-    refine ⟨?_, ?_, ?_⟩
+    refine ⟨?_, ?_, ?_, ?_⟩
+    · intro k' hk''
+      rcases List.mem_cons.1 hk'' with h1 | h1
+      · rw [h1]; exact hpl
+      · exact h.uPlain k' h1
     · intro it hit hp
       exact List.mem_cons_of_mem _ (h.uAbs it hit hp)
     · intro t a k' ha hp
@@ -240,7 +244,10 @@ theorem userInv_finish {s : Store} {thr : List Thread} (h : UserInv s thr) {u : 
     have hkh : (release s th.op r).kheld = s.kheld.erase k := by
       rw [kheld_release, hop]; simp [hr0, hpl]
     obtain ⟨g1, g2, g3⟩ := h.uRm u th k hu hk
-    refine ⟨?_, ?_, ?_⟩
+    refine ⟨?_, ?_, ?_, ?_⟩
+    · intro k' hk''
+      rw [hkh] at hk''
+      exact h.uPlain k' (List.mem_of_mem_erase hk'')
     · intro it hit hp
       rw [abs_release] at hit
       rw [hkh]
